@@ -17,10 +17,16 @@ class TranslatorError(Exception):
     pass
 
 
+SRC_SEEN = set()      # every file a translator read (tools/mkshape.py records the local names of their functions)
+
+
 def _src(rel):
     path = os.path.join(PY, rel)
     with open(path) as f:
-        return f.read()
+        text = f.read()
+    SRC_SEEN.add(rel)
+    from . import tables_shape         # late: tables_shape imports this module
+    return tables_shape.restore_locals(rel, text)
 
 
 def _func(tree, name):
